@@ -5,6 +5,7 @@ use litep2p::{
     crypto::{
         ed25519,
         verif::{verif_parse_and_verify_peer_id, VERIF_STATIC_KEY_DOMAIN},
+        verif_noise_identity::verif_decode_key_message,
         PublicKey, RemotePublicKey,
     },
     PeerId,
@@ -325,20 +326,19 @@ fn normalise(c: &[u64]) -> Vec<u64> {
     }
 }
 
+/// The Data field as the real prost decoder sees it, and whether the curve check takes it.
+fn curve_bit(blob: &[u8]) -> bool {
+    match verif_decode_key_message(blob) {
+        Some((_, data)) => ed25519::PublicKey::try_from_bytes(&data).is_ok(),
+        None => false,
+    }
+}
+
 fn mk_blob_case(blob: &[u8]) -> Vec<u64> {
     let mut c = vec![4];
     el(&mut c, blob);
     el(&mut c, &sha256(blob));
-    match litep2p_decode_key(blob) {
-        Some((_, k)) => {
-            c.push(1);
-            el(&mut c, &k);
-        }
-        None => {
-            c.push(0);
-            c.push(0);
-        }
-    }
+    c.push(curve_bit(blob) as u64);
     c
 }
 
@@ -349,8 +349,6 @@ fn mk_key_case(secret: &[u8], blob: &[u8]) -> Vec<u64> {
     el(&mut c, secret);
     el(&mut c, &pk);
     el(&mut c, blob);
-    let acc = matches!(litep2p_decode_key(blob), Some((_, k)) if k == pk);
-    c.push(acc as u64);
     c
 }
 
@@ -372,10 +370,21 @@ fn run_case(c: &[u64]) -> Option<Vec<u64>> {
             if i != c.len() {
                 return None;
             }
-            let Some(s) = b.and_then(|b| String::from_utf8(b).ok()) else { return Some(vec![2, 0, 0, 1]) };
-            let r = PeerId::from_str(&s).ok();
+            // text that is not UTF-8 cannot be handed to from_str; bs58 refuses every non-ASCII character
+            let Some(s) = b.and_then(|b| String::from_utf8(b).ok()) else { return Some(vec![2, 0, 0, 1, 1]) };
+            let res = PeerId::from_str(&s);
+            let err = match &res {
+                Ok(_) => 0,
+                Err(litep2p::ParseError::B58(_)) => 1,
+                Err(litep2p::ParseError::MultiHash) => 2,
+            };
+            let r = res.ok();
             let agree = text_entry_points_agree(&s, r);
-            Some(parse_result(2, r, RefPeerId::from_str(&s).ok(), agree))
+            let mut t = parse_result(2, r, RefPeerId::from_str(&s).ok(), agree);
+            if r.is_none() {
+                t.push(err);
+            }
+            Some(t)
         }
         3 => {
             let b = as_bytes(&take_list(c, &mut i)?);
@@ -397,6 +406,15 @@ fn run_case(c: &[u64]) -> Option<Vec<u64>> {
             let blob = as_bytes(&take_list(c, &mut i)?)?;
             let mut out = vec![4];
             el(&mut out, &PeerId::from_public_key_protobuf(&blob).to_bytes());
+            // the message as the real prost decoder reads it (type as the u32 two's complement)
+            match verif_decode_key_message(&blob) {
+                Some((t, data)) => {
+                    out.push(1);
+                    out.push(t as u32 as u64);
+                    el(&mut out, &data);
+                }
+                None => out.push(0),
+            }
             match litep2p_decode_key(&blob) {
                 Some((rk, k)) => {
                     out.push(1);
@@ -626,9 +644,19 @@ mod aux {
         el(&mut c, blob);
         el(&mut c, pkcs1);
         el(&mut c, &sha256(&canonical(pkcs1)));
+        // oracle: does the X.509 parser take the Data field (as the real prost decoder reads it) for
+        // this key — asked through the canonical framing 08 00 12 len around that field
         let want = RemotePublicKey::from_protobuf_encoding(&canonical(pkcs1)).ok();
-        let got = RemotePublicKey::from_protobuf_encoding(blob).ok();
-        c.push((want.is_some() && got == want) as u64);
+        let xacc = match verif_decode_key_message(blob) {
+            Some((_, data)) => {
+                let mut framed = vec![0x08, 0x00, 0x12];
+                framed.extend(varint(data.len() as u64));
+                framed.extend(&data);
+                want.is_some() && RemotePublicKey::from_protobuf_encoding(&framed).ok() == want
+            }
+            None => false,
+        };
+        c.push(xacc as u64);
         c
     }
 
